@@ -22,7 +22,7 @@ import re
 import subprocess
 import sys
 
-GEN_MODULES = ["Src", "SrcMatch", "SrcExtType", "SrcLikely", "SrcParse", "SrcMacros"]
+GEN_MODULES = ["Src", "SrcMatch", "SrcExtType", "SrcLikely", "SrcParse", "SrcSerde", "SrcMacros"]
 ALLOWED_AXIOMS = {"propext", "Classical.choice", "Quot.sound"}
 FORBIDDEN = ["sorry", "admit", "axiom", "native_decide", "bv_decide", "implemented_by", "unsafe",
              "maxHeartbeats 0"]
